@@ -40,7 +40,8 @@ ASSUMPTIONS = [
     "inner matchers for failures look at failure.value through AfterPreprocessing",
 ]
 
-EXCS = {"ValueError": ValueError, "KeyError": KeyError, "RuntimeError": RuntimeError}
+EXCS = {"ValueError": ValueError, "KeyError": KeyError, "RuntimeError": RuntimeError,
+        "IndexError": IndexError, "LookupError": LookupError}
 VALUES = [None, 0, 3, "x", [1, 2]]
 
 
@@ -231,7 +232,18 @@ def x_sync(ctx, case):
     def behave(self, deferred):
         if kind == "ok":
             return defer.succeed(7) if deferred else 7
-        exc = {"fail": AssertionError("F"), "error": ValueError("E"), "skip": unittest.SkipTest("S")}[kind]
+        if kind == "multi":
+            import sys
+            from testtools import MultipleExceptions
+            infos = []
+            for e in (AssertionError("F1"), ValueError("E2")):
+                try:
+                    raise e
+                except Exception:
+                    infos.append(sys.exc_info())
+            exc = MultipleExceptions(*infos)
+        else:
+            exc = {"fail": AssertionError("F"), "error": ValueError("E"), "skip": unittest.SkipTest("S")}[kind]
         if deferred:
             return defer.fail(exc)
         raise exc
@@ -311,7 +323,7 @@ def run(ctx):
                 ops = [OPS[i] for i in seq]
                 if not legal(init, ops):
                     continue
-                if ctx.quick and L == 3 and (n + ctx.seed) % 4:
+                if ctx.quick and L == 3 and (n + ctx.seed) % 6:
                     n += 1
                     continue
                 if not ctx.mine():
@@ -319,17 +331,17 @@ def run(ctx):
                 n += 1
                 ctx.execute("history", {"init": init, "ops": ops}, sample=(n % 1499 == 0))
     ctx.note_space("%d initial states x all legal operation sequences of length <= %d over %d operations%s"
-                   % (len(INITS), maxlen, len(OPS), " (length 3: 1/4 slice)" if ctx.quick else ""), n, not ctx.quick)
+                   % (len(INITS), maxlen, len(OPS), " (length 3: 1/6 slice)" if ctx.quick else ""), n, not ctx.quick)
     n = 0
     for stage in ("setUp", "test", "tearDown", "cleanup"):
-        for kind in ("ok", "fail", "error", "skip"):
+        for kind in ("ok", "fail", "error", "skip", "multi"):
             if ctx.mine():
                 n += 1
                 for rep in range(15 if ctx.quick else 60):
                     ctx.execute("sync", {"stage": stage, "kind": kind, "rep": rep})
-    ctx.note_space("SynchronousDeferredRunTest twins: 4 stages x 4 behaviours", n)
+    ctx.note_space("SynchronousDeferredRunTest twins: 4 stages x 5 behaviours", n)
     ctx.notes["random_cases"] = True
-    for i in range(ctx.scale(3000, 200000)):
+    for i in range(ctx.scale(2000, 200000)):
         if ctx.out_of_time():
             break
         init = dict(rng.choice(INITS))
